@@ -302,21 +302,25 @@ def j2_obligations(I, res, ev, F, newptr, extra_axioms=()):
 def unsafe_block_params(I, ev):
     """(ptr, layout) argument values of the innermost frame if it is an `unsafe fn(&self, NonNull<u8>, Layout, ..)`
     (the crate's dealloc / shrink / grow), else None"""
-    fid = ev.stack
-    body = I.bodies.get(fid[-1][0])
-    if body is None:
-        return None
-    m = body['meta']
-    ins = m.get('inputs') or []
-    if not m.get('unsafe') or len(ins) < 3:
-        return None
-    if 'NonNull<u8>' not in ins[1] or not ins[2].endswith('Layout'):
-        return None
-    p = ev.state.env.get((fid, 2))
-    L = ev.state.env.get((fid, 3))
-    if p is None or L is None:
-        return None
-    return p, L
+    full = ev.stack
+    entry_id = full[0][0]
+    for k in range(len(full), 0, -1):
+        fid = full[:k]
+        body = I.bodies.get(fid[-1][0])
+        if body is None:
+            return None
+        m = body['meta']
+        ins = m.get('inputs') or []
+        if m.get('unsafe') and len(ins) >= 3 and 'NonNull<u8>' in ins[1] and ins[2].endswith('Layout'):
+            p = ev.state.env.get((fid, 2))
+            L = ev.state.env.get((fid, 3))
+            if p is None or L is None:
+                return None
+            return p, L
+        # a private helper extracted from the function above it: the contract is that function's
+        if k == 1 or not I.exclusive_helper(fid[-1][0], full[k - 2][0]):
+            return None
+    return None
 
 
 def reclaim_precondition(I, ev, F):
@@ -499,3 +503,28 @@ def alternatives_deep(I, t, facts, limit=24, depth=0):
         if len(out) > limit:
             return alternatives(I, t, facts)
     return out
+
+
+def foreach_loop(I, r, body, nx, must, early_exit_ok=False):
+    """The call event `nx` (an Iterator::next in `body`) drives a loop that (a) is left only when it returned None and (b) runs
+    the event `must` on every iteration that got an item (must's block dominates every back edge): `for x in it { must }`."""
+    g = I.cfg(body)
+    loops = g.loops()
+    hs = [h for h, blks in loops.items() if nx.block in blks and nx.fn == body['id']]
+    if not hs:
+        return False
+    blocks = loops[hs[0]]
+    for e in r.events:
+        if e.kind == 'branch' and e.fn == body['id'] and e.block in blocks and e.extra.get('target') not in blocks:
+            if body['blocks'][e.extra['target']]['term']['k'] == 'unreachable':
+                continue
+            if ('is', nx.ret, 'None') not in e.extra['added'] and not early_exit_ok:
+                return False
+    if any(body['blocks'][bi]['term']['k'] == 'return' for bi in blocks) and not early_exit_ok:
+        return False
+    if must.fn != body['id'] or must.block not in blocks:
+        return False
+    for u, h in g.back_edges():
+        if h == hs[0] and u in blocks and not g.block_dominates(must.block, u):
+            return False
+    return True
